@@ -20,9 +20,9 @@ Proof. unfold is_lower, is_ws. intro H. apply andb_true_iff in H. destruct H as 
   repeat (apply orb_false_iff; split); apply N.eqb_neq; lia. Qed.
 
 (* what may follow a name / a term in printed text: nothing, a blank, or a closing parenthesis *)
-Definition stop (r : str) : Prop := r = [] \/ exists r', r = 32 :: r' \/ r = 41 :: r'.
+Definition stop (r : str) : Prop := r = [] \/ exists r', r = 32 :: r' \/ r = 41 :: r' \/ r = 45 :: r'.
 Lemma stop_hd_not_id r : stop r -> match r with c :: _ => is_id_rest c = false /\ is_kw_char c = false | [] => True end.
-Proof. intros [E|[r' [E|E]]]; subst; [exact I|split; reflexivity|split; reflexivity]. Qed.
+Proof. intros [E|[r' [E|[E|E]]]]; subst; [exact I|split; reflexivity|split; reflexivity|split; reflexivity]. Qed.
 
 Lemma last_default {A} (l : list A) d1 d2 : l <> [] -> last l d1 = last l d2.
 Proof. induction l as [|a l IH]; [contradiction|]. intros _. destruct l as [|b l]; [reflexivity|]. cbn [last] in *. apply IH. discriminate. Qed.
@@ -59,6 +59,11 @@ Proof.
   - rewrite app_length. lia.
 Qed.
 
+(* paths: names joined by "->" *)
+Definition steps_text (ns : list str) : str := concat (map (fun n => 45 :: 62 :: n) ns).
+Definition path_text (p : list str) : str := match p with [] => [] | n :: ns => (n ++ steps_text ns)%list end.
+Definition path_ok (p : list str) : Prop := p <> [] /\ Forall simple_name p.
+
 (* ---------- the printer: single blanks, parentheses only where the grammar needs them ---------- *)
 Definition T_AND : str := [32; 97; 110; 100; 32].      (* " and " *)
 Definition T_OR : str := [32; 111; 114; 32].           (* " or " *)
@@ -90,38 +95,34 @@ Definition pr_cmp (n : str) (op : cmpop) (v : hval) : str := n ++ 32 :: op_text 
 
 Fixpoint pr_term (e : fexpr) : str :=
   match e with
-  | FHas [n] => n
-  | FMissing [n] => 110 :: 111 :: 116 :: 32 :: n
-  | FCmp op [n] v => pr_cmp n op v
+  | FHas p => path_text p
+  | FMissing p => 110 :: 111 :: 116 :: 32 :: path_text p
+  | FCmp op p v => pr_cmp (path_text p) op v
   | FAnd a b => 40 :: pr_and_i a ++ T_AND ++ pr_term b ++ [41]
   | FOr a b => 40 :: pr_or_i a ++ T_OR ++ pr_and_i b ++ [41]
-  | _ => []
   end
 with pr_and_i (e : fexpr) : str :=
   match e with
   | FAnd a b => pr_and_i a ++ T_AND ++ pr_term b
   | FOr a b => 40 :: pr_or_i a ++ T_OR ++ pr_and_i b ++ [41]
-  | FHas [n] => n
-  | FMissing [n] => 110 :: 111 :: 116 :: 32 :: n
-  | FCmp op [n] v => pr_cmp n op v
-  | _ => []
+  | FHas p => path_text p
+  | FMissing p => 110 :: 111 :: 116 :: 32 :: path_text p
+  | FCmp op p v => pr_cmp (path_text p) op v
   end
 with pr_or_i (e : fexpr) : str :=
   match e with
   | FOr a b => pr_or_i a ++ T_OR ++ pr_and_i b
   | FAnd a b => pr_and_i a ++ T_AND ++ pr_term b
-  | FHas [n] => n
-  | FMissing [n] => 110 :: 111 :: 116 :: 32 :: n
-  | FCmp op [n] v => pr_cmp n op v
-  | _ => []
+  | FHas p => path_text p
+  | FMissing p => 110 :: 111 :: 116 :: 32 :: path_text p
+  | FCmp op p v => pr_cmp (path_text p) op v
   end.
 
 Fixpoint printable (e : fexpr) : Prop :=
   match e with
-  | FHas [n] | FMissing [n] => simple_name n
-  | FCmp op [n] v => simple_name n /\ val_ok v
+  | FHas p | FMissing p => path_ok p
+  | FCmp op p v => path_ok p /\ val_ok v
   | FAnd a b | FOr a b => printable a /\ printable b
-  | _ => False
   end.
 
 (* what may follow a term in printed text *)
@@ -133,7 +134,7 @@ Inductive follow : str -> Prop :=
 Lemma follow_stop r : follow r -> stop r.
 Proof. intro H. destruct H as [|x|x|x].
   - left; reflexivity.
-  - right. eexists. right. reflexivity.
+  - right. eexists. right. left. reflexivity.
   - right. eexists. left. reflexivity.
   - right. eexists. left. reflexivity.
 Qed.
@@ -162,10 +163,10 @@ Proof.
   unfold KW_NOT. cbn [List.app eat rest].
   destruct (a =? 110) eqn:E1; [|reflexivity].
   destruct n as [|b n].
-  - cbn [List.app]. destruct Hs as [E|[r' [E|E]]]; subst; reflexivity.
+  - cbn [List.app]. destruct Hs as [E|[r' [E|[E|E]]]]; subst; reflexivity.
   - inversion Hn as [|? ? Hb Hn2]; subst. cbn [List.app eat rest]. destruct (b =? 111) eqn:E2; [|reflexivity].
     destruct n as [|c n].
-    + cbn [List.app]. destruct Hs as [E|[r' [E|E]]]; subst; reflexivity.
+    + cbn [List.app]. destruct Hs as [E|[r' [E|[E|E]]]]; subst; reflexivity.
     + inversion Hn2 as [|? ? Hc Hn3]; subst. cbn [List.app eat rest]. destruct (c =? 116) eqn:E3; [|reflexivity].
       destruct n as [|d n].
       * exfalso. apply Hnot. apply N.eqb_eq in E1. apply N.eqb_eq in E2. apply N.eqb_eq in E3. subst. reflexivity.
@@ -185,6 +186,44 @@ Proof.
   destruct (length (rest (mkInp (last n p) r))) as [|fuel]; cbn [p_path_rest]; [reflexivity|].
   rewrite (follow_no_arrow _ r Hf). reflexivity.
 Qed.
+
+(* ---------- paths: names joined by "->" ---------- *)
+
+Lemma steps_stop ns r : stop r -> stop (steps_text ns ++ r).
+Proof. intro H. destruct ns as [|n ns]; cbn [steps_text map concat List.app]; [exact H|]. right. eexists. right. right. reflexivity. Qed.
+
+Lemma steps_len ns : (length ns <= length (steps_text ns))%nat.
+Proof. induction ns as [|n ns IH]; cbn [steps_text map concat length]; [lia|]. fold (steps_text ns). cbn [List.app length]. rewrite app_length. lia. Qed.
+
+Lemma path_rest_steps : forall ns q r fuel, Forall simple_name ns -> stop r -> (forall q', lit [45; 62] (mkInp q' r) = None) ->
+  (length ns <= fuel)%nat -> exists q', p_path_rest fuel (mkInp q (steps_text ns ++ r)) = (ns, mkInp q' r).
+Proof.
+  induction ns as [|n ns IH]; intros q r fuel Hn Hs Hno Hf.
+  - exists q. cbn [steps_text map concat List.app]. destruct fuel as [|f]; cbn [p_path_rest]; [reflexivity|]. rewrite Hno. reflexivity.
+  - inversion Hn as [|? ? Hn1 Hns]; subst. destruct fuel as [|f]; [cbn in Hf; lia|].
+    cbn [steps_text map concat]. fold (steps_text ns). rewrite <- app_assoc. cbn [List.app p_path_rest].
+    assert (L : lit [45; 62] (mkInp q (45 :: 62 :: n ++ steps_text ns ++ r)) = Some (tt, mkInp 62 (n ++ steps_text ns ++ r))) by reflexivity.
+    rewrite L. rewrite (p_name_simple n 62 (steps_text ns ++ r) Hn1 (steps_stop ns r Hs)).
+    destruct (IH (last n 62) r f Hns Hs Hno) as [q' Hq]; [cbn in Hf; lia|]. rewrite Hq. exists q'. reflexivity.
+Qed.
+
+Lemma p_path_multi p q r : path_ok p -> stop r -> (forall q', lit [45; 62] (mkInp q' r) = None) ->
+  exists q', p_path (mkInp q (path_text p ++ r)) = Some (p, mkInp q' r).
+Proof.
+  intros [Hne Hall] Hs Hno. destruct p as [|n ns]; [contradiction|]. inversion Hall as [|? ? Hn Hns]; subst.
+  cbn [path_text]. rewrite <- app_assoc. unfold p_path. rewrite (p_name_simple n q (steps_text ns ++ r) Hn (steps_stop ns r Hs)).
+  cbn [rest]. destruct (path_rest_steps ns (last n q) r (length (steps_text ns ++ r)) Hns Hs Hno) as [q' Hq].
+  { rewrite app_length. pose proof (steps_len ns). lia. }
+  rewrite Hq. exists q'. reflexivity.
+Qed.
+
+Lemma p_name_ws i j : ws i = ws j -> p_name i = p_name j.
+Proof. intro H. unfold p_name. rewrite H. reflexivity. Qed.
+Lemma p_path_ws i j : ws i = ws j -> p_path i = p_path j.
+Proof. intro H. unfold p_path. rewrite (p_name_ws i j H). reflexivity. Qed.
+
+Lemma path_hd p : path_ok p -> exists n ns, p = n :: ns /\ simple_name n /\ Forall simple_name ns.
+Proof. intros [Hne Hall]. destruct p as [|n ns]; [contradiction|]. inversion Hall; subst. exists n, ns. split; [reflexivity|split; assumption]. Qed.
 
 Section Term.
   Variable inner : fparser fexpr.
@@ -433,9 +472,52 @@ Proof. intro H. induction ts as [|t ts IH]; cbn [chain_text length]; [lia|]. rew
 Lemma pr_term_compound t : is_atom t = false -> pr_term t = 40 :: pr_or_i t ++ [41].
 Proof. destruct t; try discriminate; intros _; cbn [pr_term pr_or_i]; rewrite <- ?app_assoc; reflexivity. Qed.
 Lemma pr_and_nonand h : is_and h = false -> pr_and_i h = pr_term h.
-Proof. destruct h as [[|n [|? ?]]|[|n [|? ?]]|op p v|a b|a b]; try discriminate; intros _; reflexivity. Qed.
+Proof. destruct h; try discriminate; intros _; reflexivity. Qed.
 Lemma pr_or_nonor h : is_or h = false -> pr_or_i h = pr_and_i h.
-Proof. destruct h as [[|n [|? ?]]|[|n [|? ?]]|op p v|a b|a b]; try discriminate; intros _; reflexivity. Qed.
+Proof. destruct h; try discriminate; intros _; reflexivity. Qed.
+
+(* ---------- terms over paths ---------- *)
+Section TermPath.
+  Variable inner : fparser fexpr.
+
+  Lemma term_has_path p q r : path_ok p -> follow r ->
+    exists q', p_term_with inner (mkInp q (path_text p ++ r)) = Some (FHas p, mkInp q' r).
+  Proof.
+    intros Hp Hf. destruct (path_hd p Hp) as [n [ns [E [Hn Hns]]]].
+    destruct (p_path_multi p q r Hp (follow_stop r Hf) (fun q' => follow_no_arrow q' r Hf)) as [q' Hq].
+    exists q'. unfold p_term_with. rewrite Hq. subst p. cbn [path_text] in *. rewrite <- app_assoc.
+    rewrite (lit_paren_name n (steps_text ns ++ r) q Hn).
+    rewrite (kw_not_name n (steps_text ns ++ r) q Hn (steps_stop ns r (follow_stop r Hf))).
+    rewrite (follow_no_cmpop _ r Hf). reflexivity.
+  Qed.
+
+  Lemma term_missing_path p q r : path_ok p -> follow r -> is_kw_char q = false ->
+    exists q', p_term_with inner (mkInp q (110 :: 111 :: 116 :: 32 :: path_text p ++ r)) = Some (FMissing p, mkInp q' r).
+  Proof.
+    intros Hp Hf Hk.
+    destruct (p_path_multi p 32 r Hp (follow_stop r Hf) (fun q' => follow_no_arrow q' r Hf)) as [q' Hq].
+    exists q'. unfold p_term_with.
+    assert (L : lit [40] (mkInp q (110 :: 111 :: 116 :: 32 :: path_text p ++ r)) = None) by reflexivity. rewrite L.
+    assert (K : keyword KW_NOT (mkInp q (110 :: 111 :: 116 :: 32 :: path_text p ++ r)) = Some (tt, mkInp 116 (32 :: path_text p ++ r))).
+    { unfold keyword. rewrite ws_nows by reflexivity. cbn [prev]. rewrite Hk. reflexivity. }
+    rewrite K. rewrite (p_path_ws (mkInp 116 (32 :: path_text p ++ r)) (mkInp 32 (path_text p ++ r)) (ws_blank 116 _)). rewrite Hq. reflexivity.
+  Qed.
+
+  Lemma term_cmp_path p op v q r : path_ok p -> val_ok v -> follow r ->
+    exists q', p_term_with inner (mkInp q (pr_cmp (path_text p) op v ++ r)) = Some (FCmp op p v, mkInp q' r).
+  Proof.
+    intros Hp Hv Hf. destruct (path_hd p Hp) as [n [ns [E [Hn Hns]]]].
+    unfold pr_cmp. rewrite <- app_assoc. cbn [List.app]. rewrite <- app_assoc. cbn [List.app].
+    set (R := (32 :: op_text op ++ 32 :: pr_val v ++ r)%list).
+    assert (St : stop R) by (right; eexists; left; reflexivity).
+    destruct (p_path_multi p q R Hp St (fun q' => no_arrow_before_op op q' _)) as [q1 Hq].
+    destruct (p_val_ok v (last (op_text op) 0) r Hv Hf) as [q2 Hv2].
+    exists q2. unfold p_term_with. rewrite Hq. unfold R at 3. rewrite p_cmpop_text, Hv2.
+    subst p. cbn [path_text]. rewrite <- app_assoc.
+    rewrite (lit_paren_name n (steps_text ns ++ R) q Hn).
+    rewrite (kw_not_name n (steps_text ns ++ R) q Hn (steps_stop ns R St)). reflexivity.
+  Qed.
+End TermPath.
 
 Section Main.
   Variable fuel : nat.
@@ -449,10 +531,10 @@ Section Main.
   Lemma term_ok t p r : okterm t -> follow r -> is_kw_char p = false ->
     exists q, p_term_with inner (mkInp p (pr_term t ++ r)) = Some (t, mkInp q r).
   Proof.
-    intros [Hp Hs] Hf Hk. destruct t as [[|n [|? ?]]|[|n [|? ?]]|op [|n [|? ?]] v|a b|a b]; cbn [printable] in Hp; try contradiction.
-    - eexists. cbn [pr_term]. apply term_has; assumption.
-    - eexists. cbn [pr_term List.app]. apply term_missing; assumption.
-    - cbn [pr_term]. destruct Hp as [Hn Hv]. apply term_cmp; assumption.
+    intros [Hp Hs] Hf Hk. destruct t as [pp|pp|op pp v|a b|a b]; cbn [printable] in Hp.
+    - cbn [pr_term]. apply term_has_path; assumption.
+    - cbn [pr_term List.app]. apply term_missing_path; assumption.
+    - cbn [pr_term]. destruct Hp as [Hn Hv]. apply term_cmp_path; assumption.
     - destruct Hs as [Hs|Hs]; [discriminate|]. rewrite pr_term_compound by reflexivity.
       destruct (A (FAnd a b) Hp Hs (41 :: r) (or_intror (ex_intro _ r eq_refl))) as [q Hq].
       eexists. cbn [List.app]. rewrite <- app_assoc. cbn [List.app]. eapply term_paren. exact Hq.
@@ -541,14 +623,19 @@ Proof.
   - apply (or_ok (S f)); try assumption. intros e' Hp' Hs' r' Hr'. apply IH; try assumption. reflexivity.
 Qed.
 
+Lemma path_text_len p : path_ok p -> (1 <= length (path_text p))%nat.
+Proof.
+  intros [Hne Hall]. destruct p as [|n ns]; [contradiction|]. inversion Hall as [|? ? [Hn _] _]; subst.
+  cbn [path_text]. rewrite app_length. destruct n; [contradiction|]. cbn [length]. lia.
+Qed.
+
 Lemma size_le_text e : printable e ->
   (size e <= length (pr_term e))%nat /\ (size e <= length (pr_and_i e))%nat /\ (size e <= length (pr_or_i e))%nat.
 Proof.
   induction e as [p|p|op p v|a IHa b IHb|a IHa b IHb]; cbn [printable]; intro H.
-  - destruct p as [|n [|? ?]]; try contradiction. destruct H as [Hne _]. destruct n; [contradiction|]. cbn. repeat split; lia.
-  - destruct p as [|n [|? ?]]; try contradiction. cbn. repeat split; lia.
-  - destruct p as [|n [|? ?]]; try contradiction. destruct H as [[Hne _] _]. destruct n; [contradiction|].
-    cbn [size pr_term pr_and_i pr_or_i pr_cmp List.app length]. repeat split; lia.
+  - pose proof (path_text_len p H). cbn [size pr_term pr_and_i pr_or_i]. repeat split; lia.
+  - cbn [size pr_term pr_and_i pr_or_i length]. repeat split; lia.
+  - destruct H as [H _]. pose proof (path_text_len p H). cbn [size pr_term pr_and_i pr_or_i]. unfold pr_cmp. rewrite app_length. repeat split; lia.
   - destruct H as [Ha Hb]. destruct (IHa Ha) as [A1 [A2 A3]]. destruct (IHb Hb) as [B1 [B2 B3]].
     cbn [size pr_term pr_and_i pr_or_i length]. rewrite !app_length. cbn [length T_AND]. repeat split; lia.
   - destruct H as [Ha Hb]. destruct (IHa Ha) as [A1 [A2 A3]]. destruct (IHb Hb) as [B1 [B2 B3]].
@@ -569,11 +656,13 @@ Qed.
 
 (* readable corollaries *)
 Definition has (n : str) := FHas [n].
+Lemma printable_has n : simple_name n -> printable (has n).
+Proof. intro H. cbn [has printable]. split; [discriminate|constructor; [exact H|constructor]]. Qed.
 Corollary chain_and_left ns n0 : Forall simple_name (n0 :: ns) ->
   fparse (pr_or_i (fold_left FAnd (map has ns) (has n0))) = Some (fold_left FAnd (map has ns) (has n0)).
 Proof.
   intro H. apply fparse_print. inversion H as [|? ? H0 Hns]; subst. clear H.
   assert (G : forall acc, printable acc -> printable (fold_left FAnd (map has ns) acc)).
-  { induction Hns as [|n ns Hn Hns IH]; intros acc Ha; cbn [map fold_left]; [exact Ha|]. apply IH. split; [exact Ha|exact Hn]. }
-  apply G. exact H0.
+  { induction Hns as [|n ns Hn Hns IH]; intros acc Ha; cbn [map fold_left]; [exact Ha|]. apply IH. split; [exact Ha|apply printable_has; exact Hn]. }
+  apply G. apply printable_has. exact H0.
 Qed.
